@@ -152,6 +152,20 @@ def units_with_pattern():
     return out
 
 
+def units_with_active_count():
+    """units that spell an active-sample count (`getSampleNumber(<something>)`, `getActiveSampleNumber()`)"""
+    pat = re.compile(r"getActiveSampleNumber\s*\(|getSampleNumber\s*\(\s*[A-Za-z_!]")
+    out = []
+    for u in facts.all_units():
+        try:
+            t = open(u, errors="replace").read()
+        except OSError:
+            continue
+        if pat.search(t):
+            out.append(u)
+    return out
+
+
 def rank_loop_rule(prog, chk, rule, file_filter, floor_n):
     """the rank argument of a per-sample Db accessor never receives a loop variable that ranges over the VARIABLES / DIMENSIONS
     (`for (iech = 0; iech < nvar; iech++) db->isActive(iech)` visits the first nvar samples only) nor over the number of ACTIVE
@@ -181,14 +195,25 @@ def rank_loop_rule(prog, chk, rule, file_filter, floor_n):
                     return "the number of variables"
                 if short in ("getLocNumber", "getLocatorNumber") and a and a[0] is not None and (a[0].get("q") or show(a[0])) == "ELoc::Z":
                     return "the number of variables"
-                if short == "getActiveSampleNumber" or (short == "getSampleNumber" and a and a[0] is not None and a[0]["k"] == "Bool" and a[0]["v"] is True):
+                maybe_sel = short == "getSampleNumber" and a and a[0] is not None and a[0]["k"] not in ("Bool", "DefaultArg")
+                if short == "getActiveSampleNumber" or maybe_sel or (short == "getSampleNumber" and a and a[0] is not None and a[0]["k"] == "Bool" and a[0]["v"] is True):
                     # a data base the function has just built itself carries no selection: active count = total count
                     o = call_obj(b)
                     if o is not None and o["k"] == "DeclRefExpr" and o.get("dk") == "var":
                         od = single_def(f, o["d"])
                         if od is not None and any(y["k"] in ("Call", "MCall") and (y.get("callee") or "").split("::")[-1].startswith("create") for y in walk(od)):
                             return None
-                    return "the number of ACTIVE samples"
+                    # ... and so does a data base on which the function has just installed a fresh all-ones selection
+                    recv = "this" if (o is None or o["k"] == "This") else show(o)
+                    for y in f.calls():
+                        if y["k"] == "MCall" and (y.get("callee") or "").endswith("::addColumnsByConstant") and (y.get("l") or 0) < (b.get("l") or 0):
+                            ya = call_args(y)
+                            yo = call_obj(y)
+                            yrecv = "this" if (yo is None or yo["k"] == "This") else show(yo)
+                            if yrecv == recv and len(ya) >= 4 and ya[1] is not None and show(ya[1]) in ("1", "1.", "1.0") and \
+                                    ya[3] is not None and show(ya[3]).split("::")[-1] == "SEL":
+                                return None
+                    return "the number of ACTIVE samples" + (" (when `%s` is set)" % show(a[0]) if maybe_sel else "")
             if b["k"] == "MemberExpr" and b.get("n") in ("_nVar", "_nvar"):
                 return "the number of variables"
             if b["k"] == "DeclRefExpr" and b.get("dk") == "var":
